@@ -26,7 +26,11 @@ var plainScheme = barcode.ColorScheme{Model: color.Gray16Model, Background: colo
 // pattern reads the boolean module pattern of bc under the given scheme, insisting that every
 // pixel is exactly the scheme's foreground or background.
 func pattern(bc barcode.Barcode, cs barcode.ColorScheme) ([][]bool, error) {
+	probe := probeBeforeBounds(bc)
 	b := bc.Bounds()
+	if err := probe.agrees(bc); err != nil {
+		return nil, err
+	}
 	if b.Min != (image.Point{}) || b.Dx() <= 0 || b.Dy() <= 0 {
 		return nil, fmt.Errorf("bounds %v do not start at (0,0) or are empty", b)
 	}
